@@ -174,10 +174,10 @@ class Walk:
         if r['rv'] != 0 and ok: s.F('C14', 'C_InitToken|right-pin,no-session|refused', 're-initialisation with the right SO PIN failed', got=r['rvname'])
         s.cov('C03', ('inittoken', has_sess, pin == t.so)); s.cov('C14', ('inittoken', has_sess, pin == t.so))
         if r['rv'] == 0: s.m.on_inittoken(ti, label)
-    def op_initpin(s, se=None):
+    def op_initpin(s, se=None, pin=None):
         se = se or s.pick_sess()
         if not se: return
-        t = s.m.toks[se.ti]; pin = s.rnd.choice([b'user-pin-%d' % s.rnd.randrange(100), b'abc', b'p' * 255, b'p' * 256, b'1234', b'pi\x00n\xff\x80'])
+        t = s.m.toks[se.ti]; pin = pin if pin is not None else s.rnd.choice([b'user-pin-%d' % s.rnd.randrange(100), b'abc', b'p' * 255, b'p' * 256, b'1234', b'pi\x00n\xff\x80'])
         ok = s.m.initpin_allowed(se, pin); s.H('initpin', se.h, pin)
         r = s.c('C_InitPIN', s=se.h, pin=pin.hex())
         st = STATE_NAMES[s.m.state(se)]; lc = 'len-ok' if MIN_PIN <= len(pin) <= MAX_PIN else 'len-bad'
@@ -185,13 +185,13 @@ class Walk:
         if r['rv'] != 0 and ok: s.F('CTRL', f'C_InitPIN|{st}|refused', 'allowed C_InitPIN failed', got=r['rvname'])
         s.cov('C04', ('initpin', st, lc))
         if r['rv'] == 0: t.usr = pin
-    def op_setpin(s, se=None):
+    def op_setpin(s, se=None, right=None, new=None):
         se = se or s.pick_sess()
         if not se: return
         t = s.m.toks[se.ti]; cur = t.so if t.login == 'S' else t.usr
-        right = s.rnd.random() < 0.6
+        if right is None: right = s.rnd.random() < 0.6
         old = cur if (right and cur is not None) else s.wrong_pin(cur, t.so if t.login != 'S' else t.usr)
-        new = s.rnd.choice([b'new-pin-%d' % s.rnd.randrange(100), b'abc', b'n' * 255, b'n' * 256, b'', b'np\x00\xfe'])
+        new = new if new is not None else s.rnd.choice([b'new-pin-%d' % s.rnd.randrange(100), b'abc', b'n' * 255, b'n' * 256, b'', b'np\x00\xfe'])
         ok = s.m.setpin_allowed(se, old, new); s.H('setpin', se.h, old, new)
         r = s.c('C_SetPIN', s=se.h, old=old.hex(), new=new.hex())
         st = STATE_NAMES[s.m.state(se)]; cls = ('right' if old == cur else 'wrong') + '-old,' + ('len-ok' if MIN_PIN <= len(new) <= MAX_PIN else 'len-bad')
@@ -311,7 +311,9 @@ class Walk:
             if objs and s.rnd.random() < 0.6:
                 o = s.rnd.choice(objs)
                 if t in o.attrs: templ.append((t, o.attrs[t])); continue
-            if t in BOOLS: v = s.rnd.random() < .5
+            if s.rnd.random() < 0.12:      # wrong-sized raw value: can equal nothing (never 1 byte for a boolean / 8 for an integer)
+                v = s.rnd.choice([b'', b'\x01\x00', b'\x00\x00\x00', b'\x01\x00\x00\x00']) if (t in BOOLS or t in ULONGS) else s.rnd.randbytes(s.rnd.choice([1, 3, 70]))
+            elif t in BOOLS: v = s.rnd.random() < .5
             elif t in ULONGS: v = s.rnd.choice([s.ck.CKO_DATA, s.ck.CKO_SECRET_KEY, s.ck.CKK_AES, 16, 32, 0x7fffffff])
             else: v = s.rnd.choice([b'', b'app1', b'app2', b'\x01', b'id-2', b'zz', b'U00001'])
             templ.append((t, v))
